@@ -165,6 +165,22 @@ def judge(ctx, q, data, info):
             return
     if any(b[0] == "ok" for b in before[1:]):
         ctx.count("obligation:equality-checked")
+    # the query as it is born from text (nodes carry source positions), at the start of a line and inside a wrapped, indented
+    # expression: what comes back has to be something python can still compile and run
+    text = astx.unparse(q)
+    for layout, src in (("column-0", text), ("wrapped", "r = (\n        " + text + "\n)")):
+        try:
+            stmt = ast.parse(src).body[0]
+        except SyntaxError:
+            break
+        born = stmt.value
+        try:
+            conv = change_extension_functions_to_calls(born)
+            compile(ast.fix_missing_locations(ast.Expression(body=conv)), "<query>", "eval")
+            ctx.count("text-born-results-compiled")
+        except Exception as e:
+            ctx.violation(f"text-born-result-does-not-compile:{type(e).__name__}", f"{layout}: {type(e).__name__}: {str(e)[:120]} | in: {text[:300]}", witness)
+            return
     if len(ctx.samples) < 4 and len(mc) >= 2 and ctx.rnd.random() < 0.03:
         ctx.sample({"in": witness["query"], "out": astx.unparse(out)})
 
